@@ -199,7 +199,7 @@ theorem fit_simple_succeeds_any_grid (flip : Bool) (xm ym : Metric) (N : Nat) (g
   obtain ⟨m, hm, _⟩ := argmaxFirst_spec _ hne
   have hlt : argmaxFirst (cs.map (objSimple groups)) < cs.length := by
     have := (List.getElem?_eq_some_iff.mp hm).1; simpa using this
-  unfold fitSimple
+  rw [fitSimple_eq]
   rw [hh]; simp only
   rw [hc]; simp only [Option.getD_none]
   rw [List.getElem?_eq_getElem hlt, List.getElem?_eq_getElem (by simpa using hlt)]
@@ -283,7 +283,7 @@ theorem fit_EO_succeeds_any_grid (flip : Bool) (obj : Metric) (N : Nat) (groups 
   obtain ⟨m, hm, _⟩ := argmaxFirst_spec _ hne
   have hlt : argmaxFirst objs < N + 1 := by
     have := (List.getElem?_eq_some_iff.mp hm).1; omega
-  unfold fitEO
+  rw [fitEO_eq]
   rw [hh]; simp only
   rw [hc]; simp only
   rw [hy]; simp only [Option.getD_none]
